@@ -664,6 +664,10 @@ class Inliner:
                 for y in ast.walk(x):
                     guarded.add(id(y))
         found = [x for x in found if id(x) not in guarded]
+        # an inlinable call inside the arguments of another one is expanded with its host (as a parameter binding):
+        # expanding it here as well would duplicate it
+        inner = {id(y) for x in found for y in ast.walk(x) if y is not x}
+        found = [x for x in found if id(x) not in inner]
         if not found:
             return None
         pre_all: List[ast.stmt] = []
